@@ -319,8 +319,8 @@ func (p *parser) parsePostfix(x Expr) Expr {
 			x = &Sel{x, n.text}
 		case p.accept("("):
 			var args []Expr
-			if id, ok := x.(*Ident); ok && (id.Name == "typeis" || id.Name == "zero") {
-				if id.Name == "typeis" {
+			if id, ok := x.(*Ident); ok && (id.Name == "typeis" || id.Name == "zero" || id.Name == "unbox") {
+				if id.Name != "zero" {
 					args = append(args, p.parseExpr())
 					p.expect(",")
 				}
@@ -534,11 +534,25 @@ func ParseFile(path string, pkgPath string) (*File, error) {
 				if rest == "nothing" {
 					break
 				}
+				var cond Expr
+				if i := strings.Index(rest, " if "); i >= 0 {
+					c, err := ParseExpr(rest[i+4:])
+					if err != nil {
+						return nil, fail(err)
+					}
+					cond = c
+					rest = rest[:i]
+				}
 				es, err := parseExprList(rest)
 				if err != nil {
 					return nil, fail(err)
 				}
-				cur.Modifies = append(cur.Modifies, es...)
+				for _, e := range es {
+					if cond != nil {
+						e = &Cond{C: cond, A: e}
+					}
+					cur.Modifies = append(cur.Modifies, e)
+				}
 			case "pure":
 				cur.Pure = true
 			case "noeffect":
